@@ -44,8 +44,9 @@ def history_standin(pid, props, tier, seed, n_quick=(40, 30), n_thorough=(400, 4
         res = run_module(ov, "oracles.harness", [",".join(props), seed, n_hist, length])
     standin = {"what": "random histories of public operations on the real code, oracles for %s after every step"
                        % ",".join(props),
-               "bound": "%d histories x %d steps, universe of 2 IRs/3 modules/3 sections/3 intervals/5 blocks/3 symbols/"
-                        "2 proxies, seed %d" % (n_hist, length, seed),
+               "bound": "%d histories x %d steps in each of 3 universes (wide: 2 IRs/3 modules/3 sections/3 intervals/5 blocks/"
+                        "3 symbols/2 proxies; dense: 1 interval-heavy tree with 9 blocks; intervals: 1 section with 6 intervals), "
+                        "in-place edits of flags and AuxData maps included, seed %d" % (n_hist, length, seed),
                "evaluations": res.get("evaluations", 0), "distinct": res.get("distinct", 0),
                "failures": 0 if res.get("ok") else 1, "sample": res.get("sample")}
     viol = []
